@@ -449,6 +449,15 @@ pub fn run(cx: &mut Ctx) {
             do_sdec(cx, &c);
         }
     }
+    // strings with special code points at the start / end (BOM, non-characters, separators, NUL)
+    for sp in ['\u{feff}', '\u{fffe}', '\u{ffff}', '\u{0}', '\u{2028}', '\u{200b}', '\u{e000}', '\u{10ffff}', '\u{85}', '\u{a0}', '\u{b}'] {
+        for body in ["", "a", "sensors", "a=1", "\u{e9}"] {
+            do_sdec(cx, format!("{}{}", sp, body).as_bytes());
+            do_sdec(cx, format!("{}{}", body, sp).as_bytes());
+            do_sdec(cx, format!("{}{}{}", sp, body, sp).as_bytes());
+            acc_case(cx, &[format!("adds 11 {}", hex(format!("{}{}", sp, body).as_bytes())), "gets 11".into(), "raw 11".into()]);
+        }
+    }
     for bad in [vec![0xc0u8, 0x80], vec![0xc1, 0xbf], vec![0xe0, 0x80, 0x80], vec![0xe0, 0x9f, 0xbf], vec![0xed, 0xa0, 0x80], vec![0xed, 0xbf, 0xbf], vec![0xf0, 0x80, 0x80, 0x80], vec![0xf0, 0x8f, 0xbf, 0xbf], vec![0xf4, 0x90, 0x80, 0x80], vec![0xf5, 0x80, 0x80, 0x80], vec![0xff], vec![0xfe], vec![0x80], vec![0xbf], vec![0xe2, 0x82], vec![0xf0, 0x9f, 0x98], vec![0xf8, 0x88, 0x80, 0x80, 0x80], vec![0xed, 0x9f, 0xbf], vec![0xee, 0x80, 0x80], vec![0xf4, 0x8f, 0xbf, 0xbf], vec![0xc2, 0x80], vec![0xdf, 0xbf], vec![0xe0, 0xa0, 0x80]] {
         do_sdec(cx, &bad);
     }
